@@ -100,7 +100,7 @@ func build(s adShape, c cast) *schema.Advertisement {
 		for i := 0; i < s.nEP-1; i++ {
 			p := schema.Provider{ID: others[i].ID.String(), Addresses: []string{}, Metadata: []byte{}}
 			if i == 0 {
-				p.Addresses = []string{"/ip4/5.5.5.5/tcp/5", "/ip4/6.6.6.6/tcp/6"}
+				p.Addresses = []string{"/ip4/6.6.6.6/tcp/6", "/ip4/5.5.5.5/tcp/5"}
 				p.Metadata = []byte("x-metadata")
 			} else {
 				p.Addresses = []string{"/ip4/7.7.7.7/tcp/7"}
@@ -158,6 +158,15 @@ func fingerprint(ad *schema.Advertisement) string {
 // second answer equals the first) and leaves the advertisement as it was.
 func verify(ad *schema.Advertisement) (id peer.ID, err error, panicked bool, pmsg string) {
 	before := fingerprint(ad)
+	// the advertisement's read-only methods first (a receiver validates what it
+	// decoded before it verifies it): they leave the advertisement as it was
+	if p0, m0 := vp.Guard(func() { _ = ad.Validate(); _ = ad.PreviousCid() }); p0 {
+		return id, err, true, m0
+	}
+	if after := fingerprint(ad); after != before {
+		anomaly("verify:advertisement-modified-by-a-read-only-method", fmt.Sprintf("Validate / PreviousCid changed the advertisement: before %s after %s", before, after))
+		before = after
+	}
 	panicked, pmsg = vp.Guard(func() { id, err = ad.VerifySignature() })
 	if panicked {
 		return
@@ -321,7 +330,7 @@ func roundTrip(ad *schema.Advertisement, codec uint64) (*schema.Advertisement, e
 
 func TestCheck(t *testing.T) {
 	r := vp.New("C05", "exploration",
-		"advertisements: product of {previous link} x {entries: NoEntries/real} x {0..2 addresses} x {metadata empty/non-empty} x {IsRm} x {extended providers: none, main only, 2, 3 (main at every position)} x {override} x {context ID 0/1/64 bytes}; signer = provider and signer != provider (also with the signer itself listed as an extended provider); key types per tier. For each signed ad: verify, (without extended providers) sign through the plain Sign entry point and sign an already signed ad again with another key, sign a modified by-value copy and verify the original again (its bytes unchanged), verify after DAG-JSON and DAG-CBOR round trip, every single-value mutation (27 kinds), and for representative ads every single-bit flip and field-level replacement inside every signature envelope, and every assignment of signing keys {named identity, ad signer, unrelated} to the extended-provider entries. Non-trivial: every case other than verifying the untouched ad. Distinct = distinct (ad shape, keys, check).",
+		"advertisements: product of {previous link} x {entries: NoEntries/real} x {0..2 addresses} x {metadata empty/non-empty} x {IsRm} x {extended providers: none, main only, 2, 3 (main at every position)} x {override} x {context ID 0/1/64 bytes}; signer = provider and signer != provider (also with the signer itself listed as an extended provider); key types per tier. Before every verification the ad's read-only methods (Validate, PreviousCid) are called and must leave it unchanged (address lists are not in lexical order). For each signed ad: verify, (without extended providers) sign through the plain Sign entry point and sign an already signed ad again with another key, sign a modified by-value copy and verify the original again (its bytes unchanged), verify after DAG-JSON and DAG-CBOR round trip, every single-value mutation (27 kinds), and for representative ads every single-bit flip and field-level replacement inside every signature envelope, and every assignment of signing keys {named identity, ad signer, unrelated} to the extended-provider entries. Non-trivial: every case other than verifying the untouched ad. Distinct = distinct (ad shape, keys, check).",
 		"mutations that change no signed value (context ID of an ad without extended providers) must still verify",
 		"added/removed addresses are non-empty strings (an empty address does not change the undelimited signed payload, which the statement excludes)",
 		"envelope alterations are judged semantically (same decoded envelope = not an alteration)",
